@@ -27,7 +27,12 @@ const rule = "streams: (1) witnesses of the known findings and corpus (every tes
 	"universes mostly-satisfiable (deeper graphs); markers over python_version, sys_platform, os_name, extra with and/or/" +
 	"parentheses; requested extras x, y, X; 10% with malformed specifiers/markers/versions (error paths incl. marker panics); " +
 	"conflict gadgets (all versions of two packages pin a third incompatibly) force backtracking; gadgets shaped like the " +
-	"F-C08-route and F-C08-extras witnesses are grafted onto 4% each so the finding classes are exercised; any version can be " +
+	"F-C08-route and F-C08-extras witnesses are grafted onto 4% each so the finding classes are exercised; two further gadget " +
+	"families with their own root: LEAK (8%: newer versions of qa request qx[e2] and are then rejected while tried or after one/" +
+	"two levels of backtracking; qx guards a dependency by extra == e2, nothing selected requests it) and HOLES (10%: 2-3 " +
+	"dependents of hp whose specifiers, built from !=v, !=k.*, </<=/>/>= by rejection sampling against the real matcher, match " +
+	"lists of equal length and equal end points but different interiors, the newest one or two versions of hp uninstallable " +
+	"so the resolver walks down through the holes); any version can be " +
 	"the root, so cycles through the root arise; three roots per universe, preferring versions with requirements. Universes on " +
 	"which the reference run needs >= 3000 rounds are not emitted. Failing unclassified universes are shrunk. A case is " +
 	"distinct by its op line; non-trivial = a graph without graph-level error with at least three nodes, counted by distinct " +
